@@ -312,7 +312,7 @@ pub fn property() -> Property {
         exh_count,
         exh_case: exh_case_tier,
         bytes_case: None,
-        quick_cases: 60_000,
+        quick_cases: 200_000,
         thorough_cases: 2_000_000,
         max_tape: 128,
     }
